@@ -27,6 +27,14 @@ func Main(args []string) int {
 	switch args[0] {
 	case "monitor-replay":
 		return monitorReplay(*scripts, *out, *from, *to)
+	case "balance-replay":
+		return balanceReplay(*scripts, *out)
+	case "balance-free":
+		return balanceFree(*out, *seed, *runs)
+	case "withdraw-replay":
+		return withdrawReplay(*scripts, *out)
+	case "withdraw-free":
+		return withdrawFree(*out, *seed, *runs)
 	case "monitor-free":
 		return monitorFree(*out, *seed, *runs)
 	}
